@@ -131,7 +131,15 @@ func evolve(rt *rapid.T, p *im.Program, ty *im.Type, fields []*im.Field, w wm.W,
 		}
 		k := wm.GenKind().Draw(rt, "unknown_kind")
 		v := wm.Gen(rt, k, wm.GenOpts{MaxDepth: 3, MaxLen: 3, SetLike: true}, "unknown_v")
-		if rapid.IntRange(0, 11).Draw(rt, "unknown_deep") == 0 {
+		if rapid.IntRange(0, 9).Draw(rt, "unknown_big") == 0 {
+			// an unknown field far longer than any read-ahead or skip buffer (4 KiB, 32 KiB, 64 KiB)
+			n := rapid.SampledFrom([]int{4095, 4097, 9000, 32769, 70000}).Draw(rt, "unknown_big_n")
+			v = wm.Binary(bytes.Repeat([]byte{byte('a' + i)}, n))
+			if rapid.Bool().Draw(rt, "unknown_big_list") {
+				v = wm.List(wm.KBinary, v, wm.Binary([]byte("tail")))
+			}
+			k = v.K
+		} else if rapid.IntRange(0, 11).Draw(rt, "unknown_deep") == 0 {
 			// a newer writer's recursive type: a chain nested far deeper than anything the reader knows
 			v = deepChain(rapid.SampledFrom([]int{40, 65, 100, 300}).Draw(rt, "unknown_depth"), rapid.IntRange(0, 2).Draw(rt, "unknown_chain"))
 			k = v.K
@@ -384,12 +392,20 @@ type C04Case struct {
 	Src   string         `json:"src"`
 	// BufferSource: the last plan's streaming side reads from a *bytes.Buffer that is overwritten afterwards
 	BufferSource bool `json:"buffer_source,omitempty"`
+	// Base / BigN stand for the input (kept out of the JSON): the reference encoding of Base with
+	// its first string / binary leaf grown to BigN bytes
+	Base *wm.W `json:"base,omitempty"`
+	BigN int   `json:"big_n,omitempty"`
 }
 
 func checkC04(c C04Case, stat *string) error {
 	t := findTarget(c.CaseHeader)
 	if t == nil {
 		return fmt.Errorf("target %s/%s not in this lab", c.ProgID, c.Target)
+	}
+	if c.BigN > 0 && c.Base != nil {
+		big, _ := growFirstBinary(*c.Base, c.BigN)
+		c.Input = refcodec.Encode(big)
 	}
 	type res struct {
 		ok  bool
@@ -471,19 +487,27 @@ func C04(t *testing.T) {
 		if len(c.Input) > 4096 {
 			c.Input = c.Input[:4096]
 		}
+		if rapid.IntRange(0, 39).Draw(rt, "bigleaf") == 0 {
+			// one string / binary of the value is longer than the streaming reader's 1 MiB threshold
+			n := 1<<20 + rapid.SampledFrom([]int{1, 7, 4096}).Draw(rt, "bigleaf_n")
+			if _, ok := growFirstBinary(base, n); ok {
+				c.Input, c.Src, c.Base, c.BigN = nil, "valid-big-string", &base, n
+			}
+		}
 		// Known finding K1 (C13): generated streaming decoders pre-size containers from the
 		// declared count. Inputs declaring a count above 2^16 are kept out of this property
 		// by construction (and counted) so that they do not take the lab process down.
-		if refcodec.MaxDeclared(tg.Kind(), c.Input) > 1<<16 {
+		if c.BigN == 0 && refcodec.MaxDeclared(tg.Kind(), c.Input) > 1<<16 {
 			ev.Class("excluded-by-construction:K1-declared-count>2^16")
 			return
 		}
 		c.Plans = []chunkio.Plan{chunkio.GenPlan(rt, "plan0"), {Rest: 1}, chunkio.GenPlan(rt, "plan2")}
 		c.BufferSource = rapid.IntRange(0, 2).Draw(rt, "buffer_source") == 0
-		d := ev.Digest([]byte(tg.Prog.SchemaJSON), []byte(tg.Key), c.Input)
+		d := ev.Digest([]byte(tg.Prog.SchemaJSON), []byte(tg.Key), c.Input, []byte(fmt.Sprint(c.BigN)), refcodec.Encode(base))
 		var stat string
 		err := ev.Guard(func() error { return checkC04(c, &stat) })
 		nontriv := c.Src != "valid" && c.Src != "random-bytes" && stat != "value:false/stream:false"
+
 		ev.Case(d, nontriv, "unit:c04", "src:"+c.Src, "outcome:"+stat, "shape:"+tg.Class())
 		if nontriv {
 			ev.KeepSample("c04", d, func() interface{} {
@@ -492,6 +516,43 @@ func C04(t *testing.T) {
 		}
 		ev.Report(rt, "c04", c, err)
 	})
+}
+
+// growFirstBinary returns w with its first string / binary leaf outside set elements and map
+// keys replaced by n bytes of text.
+func growFirstBinary(w wm.W, n int) (wm.W, bool) {
+	switch w.K {
+	case wm.KBinary:
+		return wm.Binary(bytes.Repeat([]byte("x"), n)), true
+	case wm.KStruct:
+		for i, f := range w.Fields {
+			if v, ok := growFirstBinary(f.V, n); ok {
+				out := w
+				out.Fields = append([]wm.Field{}, w.Fields...)
+				out.Fields[i] = wm.Field{ID: f.ID, V: v}
+				return out, true
+			}
+		}
+	case wm.KList:
+		for i, e := range w.Elems {
+			if v, ok := growFirstBinary(e, n); ok {
+				out := w
+				out.Elems = append([]wm.W{}, w.Elems...)
+				out.Elems[i] = v
+				return out, true
+			}
+		}
+	case wm.KMap:
+		for i, pr := range w.Pairs {
+			if v, ok := growFirstBinary(pr.V, n); ok {
+				out := w
+				out.Pairs = append([]wm.Pair{}, w.Pairs...)
+				out.Pairs[i] = wm.Pair{K: pr.K, V: v}
+				return out, true
+			}
+		}
+	}
+	return w, false
 }
 
 func clipB(b []byte, n int) []byte {
